@@ -1,6 +1,7 @@
 //@file kiki/src/data/mod.rs mod=crate::data
 //@[ imports
 use vstd::prelude::*;
+use vstd::std_specs::cmp::*;
 //@]
 
 pub use index_updater::*;
@@ -54,8 +55,24 @@ pub struct RustSrcRef<'a>(pub &'a str);
 #[derive(Clone, Copy, Debug, PartialEq, Eq, PartialOrd, Ord, Hash)]
 pub struct ByteIndex(pub usize);
 
+//@[ T8
+#[verifier::external_derive(Clone)]
+//@]
 #[derive(Debug, Clone, PartialEq, Eq, Hash, PartialOrd, Ord)]
 pub struct DollarlessTerminalName(String);
+
+//@[ T8: derived PartialEq / Clone are structural (trusted)
+impl PartialEqSpecImpl for DollarlessTerminalName {
+    open spec fn obeys_eq_spec() -> bool { true }
+    open spec fn eq_spec(&self, other: &DollarlessTerminalName) -> bool { *self == *other }
+}
+impl PartialEqSpecImpl for Symbol {
+    open spec fn obeys_eq_spec() -> bool { true }
+    open spec fn eq_spec(&self, other: &Symbol) -> bool { *self == *other }
+}
+pub assume_specification[ <DollarlessTerminalName as Clone>::clone ](x: &DollarlessTerminalName) -> (r: DollarlessTerminalName) ensures r == *x;
+pub assume_specification[ <Symbol as Clone>::clone ](x: &Symbol) -> (r: Symbol) ensures r == *x;
+//@]
 
 //@[ ghost view of DollarlessTerminalName: the name without `$`
 impl View for DollarlessTerminalName {
@@ -95,6 +112,9 @@ impl ToString for DollarlessTerminalName {
     }
 }
 
+//@[ T8
+#[verifier::external_derive(Clone)]
+//@]
 #[derive(Debug, Clone, PartialEq, Eq, PartialOrd, Ord, Hash)]
 pub enum Symbol {
     Terminal(DollarlessTerminalName),
